@@ -2,7 +2,9 @@
     Each theorem is closed by [exact] and followed by [Print Assumptions]. *)
 From Coq Require Import Reals List Bool Arith Sorting.Sorted.
 From Celer Require Import Base.Num Base.NumR Base.NumF Base.Vec3 C12.Solver C12.Surfaces C12.Transforms
-  C03.LogicWalk C03.NavModel C03.LogicWalkProofs C03.QuadricSign C03.NavProofs C03.NavWitness.
+  C03.LogicWalk C03.NavModel C03.LogicWalkProofs C03.QuadricSign C03.NavProofs C03.NavWitness
+  C03.UnitWalk C03.UnitAbs C03.UnitWalkProofs C03.UnitBridge C03.UnitWitness
+  C03.Indexer C03.IndexerProofs C03.RectArray C03.RectArrayProofs C03.BIH C03.BIHProofs.
 Import ListNotations.
 Local Open Scope R_scope.
 
@@ -79,6 +81,207 @@ Theorem C03_quadric_sign_between_roots :
 Proof. exact quadric_sign_between_roots. Qed.
 Print Assumptions C03_quadric_sign_between_roots.
 
+(** ** L1.5: a whole unit partitioned by several volumes *)
+
+(** cross_boundary (neighbour search / full scan with the crossed face's sense forced) returns
+    the volume point location gives just past the crossing: [sprev]/[snew] are the true senses
+    just before/after crossing surface [s] (only [s] changes), [oracle] is SenseCalculator AT
+    the crossing point (arbitrary on [s]); partition hypotheses: before the crossing only
+    [cur] contains the track, after it [cur] does not, at most one volume does, implicit
+    (background / exterior-placeholder) volumes never do *)
+Theorem C03_unit_cross_is_locate :
+  forall (vols : list avol) (bg : option nat) (sprev snew oracle : nat -> bool) (cur s : nat) (b : bool),
+  (forall x, x <> s -> is_face vols x -> snew x = sprev x) ->
+  snew s = negb b ->
+  (forall x, x <> s -> is_face vols x -> oracle x = snew x) ->
+  (forall w, (w < length vols)%nat -> w <> cur -> contains vols w sprev = false) ->
+  contains vols cur snew = false ->
+  at_most_one vols snew -> implicit_empty vols snew ->
+  a_unit_cross vols bg oracle cur (s, negb b) = a_locate vols bg snew.
+Proof. exact a_cross_correct. Qed.
+Print Assumptions C03_unit_cross_is_locate.
+
+(** by induction over the crossings of a non-tangent ray: the sequence of (volume entered,
+    crossing distance) pairs of the loop find_next_step; move_to_boundary; cross_boundary
+    equals the specification's sequence of maximal segments (point location in every
+    interval between crossings, equal neighbours merged) *)
+Theorem C03_unit_trace_refines_locate :
+  forall (vols : list avol) (bg : option nat) (S0 : list bool) (xs : list (nat * R))
+         (oracle_at : R -> nat -> bool),
+  StronglySorted (fun a b => snd a < snd b) xs ->
+  (forall s d, In (s, d) xs -> (s < length S0)%nat) ->
+  (forall i, NoDup (av_faces (a_vol vols i))) ->
+  (forall s d, In (s, d) xs -> forall x, x <> s -> oracle_at d x = true_sense S0 xs d x) ->
+  forall (t0 : R) (cur : nat),
+  (forall s d, In (s, d) xs -> t0 < d) ->
+  (forall x, oracle_at t0 x = nth x S0 false) ->
+  spec_locate vols bg S0 xs t0 = Some cur ->
+  all_good vols S0 xs ->
+  nav_trace (S (length xs)) vols bg oracle_at xs t0 cur None
+  = spec_trace (spec_locate vols bg S0 xs) (Some cur) (map snd xs).
+Proof. exact nav_trace_refines_locate. Qed.
+Print Assumptions C03_unit_trace_refines_locate.
+
+(** the executable model's SimpleUnitTracker::cross_boundary / initialize ARE the abstract
+    functions above (any numeric instance) *)
+Theorem C03_bridge_unit_cross :
+  forall (u : unit R) (pos : vec3 R) (cur : nat) (surf : nat * bool),
+  wf_faces u ->
+  unit_cross u pos cur surf = a_unit_cross (abs_unit u) (u_background u) (orc u pos) cur surf.
+Proof. exact bridge_unit_cross. Qed.
+Print Assumptions C03_bridge_unit_cross.
+
+Theorem C03_bridge_unit_initialize :
+  forall (u : unit R) (pos : vec3 R),
+  off_surfaces u pos ->
+  unit_initialize u pos = a_locate (abs_unit u) (u_background u) (orc u pos).
+Proof. exact bridge_unit_initialize. Qed.
+Print Assumptions C03_bridge_unit_initialize.
+
+(** for a concrete unit of NavModel: the new volume after cross_boundary at [pos] is what
+    initialisation (= the spec [locate] at this level) gives at any point [pos'] just past
+    the crossing *)
+Theorem C03_unit_cross_is_locate_past :
+  forall (u : unit R) (pos pos' : vec3 R) (cur s : nat) (b : bool),
+  wf_faces u ->
+  off_surfaces u pos' ->
+  (forall x, x <> s -> (exists i, In x (v_faces (get_vol u i))) -> orc u pos x = orc u pos' x) ->
+  orc u pos' s = negb b ->
+  let vols := abs_unit u in
+  let sprev := fun x => if Nat.eqb x s then b else orc u pos' x in
+  (forall w, (w < length vols)%nat -> w <> cur -> contains vols w sprev = false) ->
+  contains vols cur (orc u pos') = false ->
+  at_most_one vols (orc u pos') -> implicit_empty vols (orc u pos') ->
+  unit_cross u pos cur (s, negb b) = unit_initialize u pos'.
+Proof. exact unit_cross_is_locate_past. Qed.
+Print Assumptions C03_unit_cross_is_locate_past.
+
+(** ** index arithmetic: binary search, UniverseIndexer, Hyperslab / RaggedRight indexers *)
+
+Theorem C03_bsearch_partition_point :
+  forall (p : nat -> bool) (fuel first len : nat),
+  (len <= fuel)%nat ->
+  (forall i j, (first <= i)%nat -> (i <= j)%nat -> (j < first + len)%nat -> p j = true -> p i = true) ->
+  let k := bsearch p fuel first len in
+  (first <= k <= first + len)%nat
+  /\ (forall i, (first <= i)%nat -> (i < k)%nat -> p i = true)
+  /\ (forall i, (k <= i)%nat -> (i < first + len)%nat -> p i = false).
+Proof. exact bsearch_spec. Qed.
+Print Assumptions C03_bsearch_partition_point.
+
+Theorem C03_indexer_local_of_global :
+  forall (offs : list nat) (uni loc : nat),
+  wf_offsets offs -> (uni < num_universes offs)%nat -> (loc < local_size offs uni)%nat ->
+  local_id offs (global_id offs uni loc) = (uni, loc).
+Proof. exact indexer_local_of_global. Qed.
+Print Assumptions C03_indexer_local_of_global.
+
+Theorem C03_indexer_global_of_local :
+  forall (offs : list nat) (id : nat),
+  wf_offsets offs -> (id < nth (length offs - 1) offs 0)%nat ->
+  let '(uni, loc) := local_id offs id in
+  global_id offs uni loc = id /\ (uni < num_universes offs)%nat
+  /\ (nth uni offs 0 <= id < nth (S uni) offs 0)%nat /\ (loc < local_size offs uni)%nat.
+Proof. exact indexer_global_of_local. Qed.
+Print Assumptions C03_indexer_global_of_local.
+
+Theorem C03_hyperslab_inverse :
+  (forall d0 d1 d2 c0 c1 c2, (c1 < d1)%nat -> (c2 < d2)%nat ->
+     hs_coords (d0, d1, d2) (hs_index (d0, d1, d2) (c0, c1, c2)) = (c0, c1, c2))
+  /\ (forall d0 d1 d2 index, (0 < d1)%nat -> (0 < d2)%nat -> (index < d0 * d1 * d2)%nat ->
+       let '(c0, c1, c2) := hs_coords (d0, d1, d2) index in
+       hs_index (d0, d1, d2) (c0, c1, c2) = index /\ (c0 < d0)%nat /\ (c1 < d1)%nat /\ (c2 < d2)%nat).
+Proof. exact (conj hs_coords_of_index hs_index_of_coords). Qed.
+Print Assumptions C03_hyperslab_inverse.
+
+Theorem C03_ragged_right_inverse :
+  (forall s0 s1 s2 ax k, (ax < 3)%nat -> (k < nth ax [s0; s1; s2] 0)%nat ->
+     rr_coords (rr_from_sizes s0 s1 s2) (rr_index (rr_from_sizes s0 s1 s2) ax k) = (ax, k))
+  /\ (forall s0 s1 s2 index, (index < s0 + s1 + s2)%nat ->
+       let '(ax, k) := rr_coords (rr_from_sizes s0 s1 s2) index in
+       rr_index (rr_from_sizes s0 s1 s2) ax k = index /\ (ax < 3)%nat /\ (k < nth ax [s0; s1; s2] 0)%nat).
+Proof. exact (conj rr_coords_of_index rr_index_of_coords). Qed.
+Print Assumptions C03_ragged_right_inverse.
+
+(** ** RectArrayTracker *)
+
+Theorem C03_rect_initialize_spec :
+  forall (r : rect R) (pos : vec3 R) (v : nat),
+  wf_rect r ->
+  (ra_initialize r pos = Some v <->
+   exists c0 c1 c2, v = hs_index (ra_dims r) (c0, c1, c2)
+     /\ (S c0 < length (ra_gx r))%nat /\ nth c0 (ra_gx r) 0 < vx pos < nth (S c0) (ra_gx r) 0
+     /\ (S c1 < length (ra_gy r))%nat /\ nth c1 (ra_gy r) 0 < vy pos < nth (S c1) (ra_gy r) 0
+     /\ (S c2 < length (ra_gz r))%nat /\ nth c2 (ra_gz r) 0 < vz pos < nth (S c2) (ra_gz r) 0).
+Proof. exact ra_initialize_spec. Qed.
+Print Assumptions C03_rect_initialize_spec.
+
+Theorem C03_rect_cross_adjacent :
+  forall (r : rect R) (c0 c1 c2 ax k : nat) (sense : bool),
+  (c1 < snd (fst (ra_dims r)))%nat -> (c2 < snd (ra_dims r))%nat ->
+  (ax < 3)%nat -> (k < length (ra_grid r ax))%nat ->
+  let c := (c0, c1, c2) in
+  let surf := rr_index (ra_offs r) ax k in
+  let ca := coord c ax in
+  ra_cross r (hs_index (ra_dims r) c) (surf, sense) =
+  if (Nat.eqb ca 0 && negb sense) || (Nat.eqb ca (ra_dim r ax - 1) && sense) then None
+  else Some (hs_index (ra_dims r) (set_coord c ax (if sense then S ca else pred ca)), (surf, sense)).
+Proof. exact ra_cross_adjacent. Qed.
+Print Assumptions C03_rect_cross_adjacent.
+
+Theorem C03_rect_limited_truncates :
+  forall (r : rect R) (vol : nat) (pos dir : vec3 R) (m : R),
+  ra_intersect r vol pos dir (Some m) =
+  match ra_intersect r vol pos dir None with
+  | (Some d, Some s) => if Rleb d m then (Some d, Some s) else (Some m, None)
+  | _ => (Some m, None)
+  end.
+Proof. exact ra_limited_truncates. Qed.
+Print Assumptions C03_rect_limited_truncates.
+
+(** ** BIH traversal *)
+
+(** the flat-array state machine of BIHTraverser::operator() = the recursive traversal of the
+    tree the arrays represent, then the infinite volumes; fuel 3 * #nodes + 1 suffices *)
+Theorem C03_bih_traverse_refines :
+  forall (t : bih_tree R) (p : vec3 R) (is_inside : nat -> bool) (b : btree R),
+  repr t 0 None b ->
+  (bsize b <= length (t_inner t) + length (t_leaves t))%nat ->
+  bih_traverse t p is_inside =
+  Some (match rec_traverse (btest t p is_inside) p b with
+        | Some v => Some v
+        | None => visit_inf_vols t is_inside
+        end).
+Proof. exact bih_traverse_refines. Qed.
+Print Assumptions C03_bih_traverse_refines.
+
+(** it returns a volume iff some volume in a leaf reached by the point's path passes the test
+    (bbox contains the point and the predicate holds), and the returned volume is one *)
+Theorem C03_bih_traverse_complete :
+  forall (test : nat -> bool) (p : vec3 R) (b : btree R),
+  (rec_traverse test p b = None <-> (forall v, reach p b v -> test v = false))
+  /\ (forall w, rec_traverse test p b = Some w -> reach p b w /\ test w = true).
+Proof. exact (fun test p b => conj (rec_traverse_none test p b) (rec_traverse_some test p b)). Qed.
+Print Assumptions C03_bih_traverse_complete.
+
+Theorem C03_bih_equals_linear_search :
+  forall (bb : nat -> vec3 R * vec3 R) (test : nat -> bool) (p : vec3 R) (b : btree R),
+  planes_sound bb b ->
+  (forall v, In v (bvols b) -> test v = true -> strictly_inside bb v p) ->
+  (forall v w, In v (bvols b) -> In w (bvols b) -> test v = true -> test w = true -> v = w) ->
+  rec_traverse test p b = first_vol test (bvols b).
+Proof. exact bih_equals_linear_search. Qed.
+Print Assumptions C03_bih_equals_linear_search.
+
+(** a point exactly on a bounding plane (closed bbox test vs strict plane test) is missed *)
+Theorem C03_bih_boundary_point_missed :
+  exists (test : nat -> bool) (p : vec3 R) (b : btree R) (bbx : nat -> vec3 R * vec3 R),
+    bbox_contains (bbx 0%nat) p = true /\ test 0%nat = true
+    /\ first_vol (fun v => bbox_contains (bbx v) p && test v) (bvols b) = Some 0%nat
+    /\ rec_traverse (fun v => bbox_contains (bbx v) p && test v) p b = None.
+Proof. exact bih_boundary_point_missed. Qed.
+Print Assumptions C03_bih_boundary_point_missed.
+
 (** ** L2: minimum over levels, shallowest level wins ties *)
 
 Theorem C03_min_over_levels_correct :
@@ -152,6 +355,22 @@ Theorem C03_moves_keep_volumes :
   = map (fun l => (ls_univ l, ls_vol l)) (st_levels st).
 Proof. exact moves_keep_volumes. Qed.
 Print Assumptions C03_moves_keep_volumes.
+
+(** move_internal(pos): same volume stack, level-0 position = pos, deeper positions = the
+    parent's position through the daughter transform, surface and cached step cleared *)
+Theorem C03_move_internal_pos_spec :
+  forall (g : geometry R) (st : state R) (pos : vec3 R),
+  st_levels st <> [] ->
+  let st' := move_internal_pos g st pos in
+  map (fun l => (ls_univ l, ls_vol l, ls_dir l)) (st_levels st')
+  = map (fun l => (ls_univ l, ls_vol l, ls_dir l)) (st_levels st)
+  /\ ls_pos (get_level st' 0) = pos
+  /\ (forall k, (S k <= level st)%nat ->
+       ls_pos (get_level st' (S k)) = x_down (level_xform g st k) (ls_pos (get_level st' k)))
+  /\ st_surf st' = None /\ st_next_step st' = 0 /\ st_next_surf st' = None
+  /\ st_reentrant st' = st_reentrant st.
+Proof. exact move_internal_pos_spec. Qed.
+Print Assumptions C03_move_internal_pos_spec.
 
 Theorem C03_reentrant_protocol :
   forall (tol : tolerance R) (g : geometry R) (st : state R) (maxd : option R),
